@@ -232,6 +232,47 @@ def sample_failures(buf, C, E, fills, keys: list[int], batch_sizes=None) -> list
     return fails
 
 
+def support_failures(buf, C, E, fills, ctx: Ctx) -> list[tuple[str, str]]:
+    """The randomness seam of sample(): the real sample() is run eagerly with jax.random.choice replaced by a recorder, and the
+    probability vector it hands to the sampler is judged.  An unwritten slot must have probability EXACTLY 0 and the draw must be
+    without replacement: that decides "never an unwritten slot, never a transition twice" for ALL keys, including events far too
+    rare for any key alphabet (an epsilon added to every probability).  If sample() does not go through jax.random.choice nothing
+    is recorded and only the key enumeration speaks (guard `support-intercepted` then stays 0)."""
+    import jax.random as _jrmod
+
+    nE = max(E, 1)
+    stored = sum(min(f, C) for f in fills)
+    if stored < 1:
+        return []
+    calls = []
+    real = _jrmod.choice
+
+    def recorder(key, a, shape=(), replace=True, p=None, axis=0, **kw):
+        calls.append(dict(a=a, replace=replace, p=None if p is None else np.asarray(p, dtype=np.float64)))
+        return real(key, a, shape=shape, replace=replace, p=p, axis=axis, **kw)
+
+    _jrmod.choice = recorder
+    try:
+        buf.sample(1, key=jr.key(0))
+    finally:
+        _jrmod.choice = real
+    fails = []
+    for c in calls:
+        ctx.guard("support-intercepted")
+        if c["p"] is None or np.shape(c["p"]) != (nE * C,):
+            continue  # a different use of choice: not interpretable here
+        written = np.asarray([(i % C) < min(fills[i // C], C) for i in range(nE * C)])
+        pr = c["p"]
+        if np.any(pr[~written] != 0):
+            fails.append(("C06/support/unwritten-slot-has-positive-probability",
+                          f"C={C} E={E} fills={fills}: sample() hands jax.random.choice the probabilities {pr.tolist()}: unwritten slots {np.flatnonzero(~written).tolist()} can be drawn (probability {float(pr[~written].max()):.3g} each)"))
+        if np.any(pr[written] <= 0) or np.any(np.isnan(pr)):
+            fails.append(("C06/support/stored-slot-has-zero-probability", f"C={C} E={E} fills={fills}: probabilities {pr.tolist()}: a stored slot can never be drawn"))
+        if c["replace"] and stored > 1:
+            fails.append(("C06/support/drawn-with-replacement", f"C={C} E={E} fills={fills}: sample() draws with replacement"))
+    return fails
+
+
 def clause_path(cases, ctx: Ctx):
     """case: {C, E, path, keys, sample: bool}.  Replays the path on the real buffer."""
     out = []
@@ -239,6 +280,7 @@ def clause_path(cases, ctx: Ctx):
         buf, fills, fails = build(c["C"], c["E"], c["path"])
         if c.get("sample"):
             fails += sample_failures(buf, c["C"], c["E"], fills, c["keys"], c.get("batch_sizes"))
+            fails += support_failures(buf, c["C"], c["E"], fills, ctx)
         for sig, msg in fails:
             out.append((i, sig, msg))
     return out
@@ -319,6 +361,7 @@ def explore(ctx: Ctx):
     ctx.run("tlc", [dict(C=C, E=E, MaxN=M, real_E=rE) for (C, E, M, rE) in tlc_cfgs])
     ctx.notes["tlc_model"] = "models/Ring.tla: invariants MostRecent, ValidIsWritten, NoDuplicates verified by TLC for " + str(tlc_cfgs)
     ctx.require("wrapped", "unequal-fill", "wrapped-twice", "tlc-edges")
+    ctx.notes["sampler_support_judged_in_states"] = ctx.guards.get("support-intercepted", 0)  # 0 = sample() no longer goes through jax.random.choice: only the key enumeration decides
     ctx.notes["configs_(C,E)"] = configs
     ctx.notes["keys"] = len(keys)
 
